@@ -54,6 +54,7 @@ P_C15_split(cls, s, sep, name) ==
 P_C15_order(S) ==          \* on a set of references: equivalence, hash coherence, strict total order
   /\ \A a, b \in S : (a.cls \in Pydantic /\ b.cls \in Pydantic) => (Eq(a, b) <=> (a.p = b.p /\ a.id = b.id))
   /\ \A a, b \in S : Eq(a, b) => HashKey(a) = HashKey(b)
+  /\ \A a, b \in S : Lt(a, b) <=> (LexLT(a.p, b.p) \/ (a.p = b.p /\ LexLT(a.id, b.id)))      \* THE lexicographic order on the pair
   /\ \A a \in S : ~Lt(a, a)
   /\ \A a, b \in S : (a.p # b.p \/ a.id # b.id) => (Lt(a, b) \/ Lt(b, a)) /\ ~(Lt(a, b) /\ Lt(b, a))
   /\ \A a, b, c \in S : (Lt(a, b) /\ Lt(b, c)) => Lt(a, c)
